@@ -28,7 +28,7 @@ KEYID = {}
 def kid(key):
     """(fn name, arg) -> <<f, h>> ids used by the monitors"""
     name, a = key
-    return [{"tf": 1, "tg": 2, "th": 3}[name], a]
+    return [{"tf": 1, "tg": 2, "th": 3, "tw": 4}[name], a]
 
 
 def make_backend(sc, base):
@@ -66,7 +66,7 @@ def proj_cache(backend, hash_ids):
     def k(ck):
         qn, _, ah = ck.rpartition("/")
         fname = qn.split(":")[-1].split("#")[0]
-        return [{"tf": 1, "tg": 2, "th": 3}.get(fname, 9), hash_ids.get(ah, 0)]
+        return [{"tf": 1, "tg": 2, "th": 3, "tw": 4}.get(fname, 9), hash_ids.get(ah, 0)]
     return {"lru": [k(x) for x in list(mc.lru_deque)],
             "ent": [{"k": k(x), "size": int(e.obj_size), "hasv": bool(e.has_value)} for x, e in mc.cache.items()],
             "usage": int(mc.memory_usage)}
@@ -75,7 +75,7 @@ def proj_cache(backend, hash_ids):
 def hash_table():
     t = {}
     for name, fn in verif_thr.FNS.items():
-        for a in range(0, 20):
+        for a in range(0, 200):
             t[fn.fn_reference().with_args(a).arg_hash] = a
     return t
 
@@ -145,7 +145,7 @@ def run_schedule(sc, sched, seqs):
             pol = verif_sched.policy_random(random.Random(sched["random"]), sched.get("p", 0.15))
         else:
             pol = verif_sched.policy_preemptions(sched.get("start", 0), [tuple(x) for x in sched.get("preempts", [])])
-        ctrl = verif_sched.Controller(fns, pol)
+        ctrl = verif_sched.Controller(fns, pol, max_steps=int(sc.get("max_steps", 20000)))
         ctrl.run()
         for item in log.take():
             if item[0] == "Body":
@@ -184,6 +184,9 @@ def main():
     with open(sys.argv[1]) as f:
         doc = json.load(f)
     HASHES = hash_table()
+    # every lock memento creates from now on is a cooperative one, also those created while a scenario is
+    # prepared (a lock table that outlives a run must not hand real locks to managed threads)
+    verif_sched.install_coop_locks()
     out = []
     for job in doc["jobs"]:
         sc = job["scenario"]
